@@ -376,6 +376,49 @@ def run_lifetimes(case):
     return [list(e) for e in ev]
 
 
+def none_object_probe(nthreads, accesses):
+    """A factory whose setup_object() returns None (a factory used for its side effects: it opens something and keeps no handle):
+    still at most one setup per thread, every access gets that object (None), one teardown per created object.
+    Returns a list of (signature, text)."""
+    import threading
+    from lemoncheesecake.helpers.threading import ThreadedFactory
+    lock = threading.Lock()
+    setups, got, torn = {}, [], []
+
+    class F(ThreadedFactory):
+        def setup_object(self):
+            with lock:
+                name = threading.current_thread().name
+                setups[name] = setups.get(name, 0) + 1
+            return None
+
+        def teardown_object(self, obj):
+            with lock:
+                torn.append(obj)
+    fac = F()
+
+    def body():
+        for _ in range(accesses):
+            o = fac.get_object()
+            with lock:
+                got.append(o)
+    ths = [threading.Thread(target=body, name="N%d" % i) for i in range(nthreads)]
+    for t in ths:
+        t.start()
+    for t in ths:
+        t.join(20)
+    fac.teardown_factory()
+    hits = []
+    many = {k: v for k, v in setups.items() if v > 1}
+    if many:
+        hits.append(("none-object:several-per-thread", "setup_object (returning None) was called %s times on one thread: %s" % (max(many.values()), many)))
+    if any(o is not None for o in got):
+        hits.append(("none-object:wrong-object", "get_object returned something else than the object setup_object built (None)"))
+    if len(torn) != sum(setups.values()):
+        hits.append(("none-object:teardown-count", "%d objects were set up, teardown_object was called %d times" % (sum(setups.values()), len(torn))))
+    return hits
+
+
 def oracle_lifetimes(case, ev):
     hits = []
     created = {}
@@ -856,6 +899,11 @@ def check(run):
                     small = c2
             run.violation("oracle:" + h[0], h[1], {"part": "C", "case": small, "events": run_lifetimes(small)})
 
+    for nthreads, accesses in ((1, 3), (3, 2), (4, 4)):
+        run.evaluations += 1
+        run.count("none_object_probes")
+        for sig, text in none_object_probe(nthreads, accesses):
+            run.violation("oracle:" + sig, text, {"part": "C", "probe": "none_object_probe", "threads": nthreads, "accesses": accesses})
     # ---- part A
     n = 250 if run.tier == "quick" else 6000
     cases = []
